@@ -366,6 +366,8 @@ type checker struct {
 	unspecIndexPlain  atomic.Int64
 	unspecMixed       atomic.Int64
 	unspecPDOnly      atomic.Int64
+	nEdits            atomic.Int64
+	editAllDepth      int
 	outcomes          sync.Map
 }
 
@@ -401,6 +403,7 @@ type kase struct {
 	scope string
 	wire  bool
 	model v6chain.Chain
+	raw   []byte // wire variant: the bytes the chain was parsed from
 }
 
 func (k *kase) variant() string {
@@ -411,7 +414,10 @@ func (k *kase) variant() string {
 }
 
 func (k *kase) fail(fp, observed, expected, explain string, body lazy) {
-	k.ck.report(fp+"|"+k.variant(), k.order, k.scope, func() fw.Violation {
+	if !strings.HasPrefix(fp, "relay-chain|") { // the amend-and-forward classes exist after the wire trip only
+		fp += "|" + k.variant()
+	}
+	k.ck.report(fp, k.order, k.scope, func() fw.Violation {
 		return fw.Violation{
 			Input:    fmt.Sprintf("%s; %s; chain bytes %s", k.sp.String(), k.variant(), fw.Hex(fullModel(k.sp).Encode())),
 			Observed: observed, Expected: expected, Explain: explain,
@@ -753,15 +759,16 @@ func (k *kase) relayRepl(d dhcpv6.DHCPv6) {
 }
 
 // observe runs every observer of the chain scope on d.
-func (k *kase) observe(d dhcpv6.DHCPv6) {
+func (k *kase) observe(d dhcpv6.DHCPv6) bool {
 	if !k.structure(d) {
-		return // the chain itself is already wrong; the observers would only repeat it
+		return false // the chain itself is already wrong; the observers would only repeat it
 	}
 	innerBytes := k.model.Inner.Encode()
 	k.getInner(d, "GetInnerMessage", innerBytes, k.model.Inner.Type, k.model.Inner.XID,
 		bodyWantBytes(lit("d.GetInnerMessage()"), innerBytes))
 	k.index(d)
 	k.relayRepl(d)
+	return true
 }
 
 func (k *kase) wireTrip(d dhcpv6.DHCPv6) dhcpv6.DHCPv6 {
@@ -781,7 +788,134 @@ func (k *kase) wireTrip(d dhcpv6.DHCPv6) dhcpv6.DHCPv6 {
 		k.fail("FromBytes|rejects-built-chain", fmt.Sprintf("FromBytes(%s): %v", fw.HexShort(raw), err), "the chain", "a chain built with EncapsulateRelay must survive a wire trip", body)
 		return nil
 	}
+	k.raw = raw
 	return back
+}
+
+// ---- amend a received chain and forward it -----------------------------------------
+
+const editOptCode = 65001 // unassigned option code used as the marker added to the inner message
+
+func editMarker(sp spec) []byte {
+	return []byte{'c', '1', '6', '-', 'e', 'd', 'i', 't', byte(sp.depth()), sp.ityp}
+}
+func editIID(lv int) []byte { return []byte{'n', 'e', 'w', '-', 'i', 'f', byte(lv), 0x5a} }
+
+// levelAt returns the relay header `lv` (0 = innermost) of a chain of the given
+// depth, walking down from the outermost through the exported accessor.
+func levelAt(d dhcpv6.DHCPv6, depth, lv int) *dhcpv6.RelayMessage {
+	r, _ := d.(*dhcpv6.RelayMessage)
+	for i := depth - 1; i > lv && r != nil; i-- {
+		r, _ = r.Options.RelayMessage().(*dhcpv6.RelayMessage)
+	}
+	return r
+}
+
+// edits: the chain as received (parsed from k.raw) is amended in place and
+// serialised again, as a relay or server does before forwarding. (a) an option
+// is added to the innermost message obtained with GetInnerMessage; (b) for every
+// level in turn the interface-id is set with UpdateOption. Each edit is made on a
+// freshly parsed chain. The bytes written afterwards, read by the reference
+// decoder and by the library, must be the model with the same edit applied.
+func (k *kase) edits() {
+	depth := k.model.Depth()
+	for e := -1; e < depth; e++ { // -1 = inner message, otherwise the level
+		lv := e
+		place := "level"
+		want := k.model.Clone()
+		var goEdit, goCheck string
+		if lv < 0 {
+			place = "inner"
+			want.Inner.Opts = append(want.Inner.Opts, v6chain.Opt{Code: editOptCode, Val: editMarker(k.sp)})
+		} else {
+			v := editIID(lv)
+			want.Levels[lv].IID = &v
+		}
+		body := lazy(func() string {
+			if lv < 0 {
+				goEdit = fmt.Sprintf("\tm, err := d.GetInnerMessage()\n\tif err != nil {\n\t\tt.Fatal(err)\n\t}\n\tm.AddOption(&dhcpv6.OptionGeneric{OptionCode: %d, OptionData: []byte(%q)}) // amend the received chain in place\n", editOptCode, editMarker(k.sp))
+				goCheck = fmt.Sprintf("\tm2, err := d2.GetInnerMessage()\n\tif err != nil || m2.GetOneOption(%d) == nil {\n\t\tt.Fatalf(\"the option added to the inner message is not on the wire: %%v err=%%v\", m2, err)\n\t}\n", editOptCode)
+			} else {
+				walk := fmt.Sprintf("\tfor i := 0; i < %d; i++ { // down to level %d (0 = innermost)\n\t\t%%s = %%s.Options.RelayMessage().(*dhcpv6.RelayMessage)\n\t}\n", depth-1-lv, lv)
+				goEdit = "\tlv := d.(*dhcpv6.RelayMessage)\n" + fmt.Sprintf(walk, "lv", "lv") + fmt.Sprintf("\tlv.UpdateOption(dhcpv6.OptInterfaceID([]byte(%q))) // amend the received chain in place\n", editIID(lv))
+				goCheck = "\tlv2 := d2.(*dhcpv6.RelayMessage)\n" + fmt.Sprintf(walk, "lv2", "lv2") + fmt.Sprintf("\tif got := lv2.Options.InterfaceID(); string(got) != %q {\n\t\tt.Fatalf(\"interface-id on the wire is %%q, the edit is lost\", got)\n\t}\n", editIID(lv))
+			}
+			return goEdit + "\td2, err := dhcpv6.FromBytes(d.ToBytes()) // forward it\n\tif err != nil {\n\t\tt.Fatal(err)\n\t}\n" + goCheck
+		})
+		k.ck.nEdits.Add(1)
+		var w dhcpv6.DHCPv6
+		var err error
+		var raw2 []byte
+		if pv, st := fw.Safe(func() {
+			w, err = dhcpv6.FromBytes(append([]byte{}, k.raw...))
+			if err != nil {
+				return
+			}
+			if lv < 0 {
+				var m *dhcpv6.Message
+				if m, err = w.GetInnerMessage(); err != nil {
+					return
+				}
+				m.AddOption(&dhcpv6.OptionGeneric{OptionCode: editOptCode, OptionData: editMarker(k.sp)})
+			} else {
+				r := levelAt(w, depth, lv)
+				if r == nil {
+					err = fmt.Errorf("level %d not reachable through Options.RelayMessage()", lv)
+					return
+				}
+				r.UpdateOption(dhcpv6.OptInterfaceID(editIID(lv)))
+			}
+			raw2 = w.ToBytes()
+		}); pv != nil {
+			k.panicked("relay-chain|edit-after-decode", pv, st, body)
+			continue
+		}
+		if err != nil {
+			continue // parsing / GetInnerMessage on this chain is checked (and reported) by the other observers
+		}
+		wantBytes := want.Encode()
+		report := func(how string, got v6chain.Chain, field, det string) {
+			if f0, _ := v6chain.Diff(got, k.model); f0 == "" {
+				k.fail("relay-chain|edit-after-decode-lost-on-wire|"+place, det+"; "+how+" shows the chain exactly as it was received; bytes "+fw.HexShort(raw2),
+					"the received chain with the edit applied, e.g. "+fw.HexShort(wantBytes),
+					"a chain that was parsed, amended in place and serialised again must carry the amendment on the wire", body)
+				return
+			}
+			k.fail("relay-chain|edit-after-decode-wrong-on-wire|"+place+"|"+field, det+" ("+how+"); bytes "+fw.HexShort(raw2),
+				"the received chain with the edit applied, e.g. "+fw.HexShort(wantBytes),
+				"a chain that was parsed, amended in place and serialised again must differ from the received one by exactly the amendment", body)
+		}
+		dec, derr := v6chain.Decode(raw2)
+		if derr != nil {
+			k.fail("relay-chain|edit-after-decode-undecodable|"+place, derr.Error()+" in "+fw.HexShort(raw2), fw.HexShort(wantBytes), "the amended chain does not serialise to a well-formed relay chain", body)
+			continue
+		}
+		if f, det := v6chain.Diff(dec, want); f != "" {
+			report("the reference decoder", dec, f, det)
+			continue
+		}
+		var w2 dhcpv6.DHCPv6
+		var got v6chain.Chain
+		var werr error
+		if pv, st := fw.Safe(func() {
+			if w2, err = dhcpv6.FromBytes(append([]byte{}, raw2...)); err == nil {
+				got, werr = walk(w2)
+			}
+		}); pv != nil {
+			k.panicked("relay-chain|edit-after-decode", pv, st, body)
+			continue
+		}
+		if err != nil || werr != nil {
+			k.fail("relay-chain|edit-after-decode-does-not-parse|"+place, fmt.Sprintf("FromBytes(%s): %v %v", fw.HexShort(raw2), err, werr), "the amended chain", "the amended chain must survive the next wire trip", body)
+			continue
+		}
+		if f, det := v6chain.Diff(got, want); f != "" {
+			report("the library's own decoding of the forwarded bytes", got, f, det)
+			continue
+		}
+		ib := want.Inner.Encode()
+		k.getInner(w2, "relay-chain|edit-after-decode+GetInnerMessage("+place+")", ib, want.Inner.Type, want.Inner.XID, body)
+	}
 }
 
 // runChain is one (shape, type pattern, inner message) case: as built and after
@@ -795,7 +929,13 @@ func (ck *checker) runChain(order int64, sp spec) {
 	k.observe(d)
 	kw := &kase{ck: ck, sp: sp, order: order, scope: "a:relay-chains", wire: true, model: k.model}
 	if w := kw.wireTrip(d); w != nil {
-		kw.observe(w)
+		// the amend-and-forward clause costs O(depth) wire trips per case: every
+		// inner message for all-RELAY-FORW chains up to editAllDepth; for the other
+		// type patterns and for deeper chains the 22 inner messages with no option
+		// and with every option (the clause does not look at types or inner options)
+		if kw.observe(w) && ((sp.pat == 0 && sp.depth() <= ck.editAllDepth) || sp.subset == 0 || sp.subset == nSubsets-1) {
+			kw.edits()
+		}
 	}
 }
 
@@ -976,6 +1116,10 @@ func Run(c *fw.Ctx) {
 	if c.Thorough() {
 		fullDepth = 5
 	}
+	ck.editAllDepth = 3
+	if c.Thorough() {
+		ck.editAllDepth = 4
+	}
 	sh := shapes(fullDepth)
 	perShape := int64(nPat * nInner)
 	total := int64(len(sh)) * perShape
@@ -1005,7 +1149,9 @@ func Run(c *fw.Ctx) {
 		"inner_messages", "message types 1..11 x all 64 subsets of {client-id, server-id, IA_NA, IA_PD, rapid-commit, vendor-class} = 704",
 		"variants", "as built with EncapsulateRelay + AddOption/UpdateOption, and after ToBytes/FromBytes",
 		"skipped_duplicates", "type patterns 2 and 3 at depth 1 (identical to 0 and 1): 4 shapes x 2 x 704 = 5632 indices, not counted as non-trivial",
-		"observers", "exported fields, ToBytes via reference decoder, DecapsulateRelay after every EncapsulateRelay, GetInnerMessage, DecapsulateRelayIndex for every index -3..depth+2, NewRelayReplFromRelayForw (result as held, as serialised, after a wire trip)",
+		"observers", "exported fields, ToBytes via reference decoder, DecapsulateRelay after every EncapsulateRelay, GetInnerMessage, DecapsulateRelayIndex for every index -3..depth+2, NewRelayReplFromRelayForw (result as held, as serialised, after a wire trip); after the wire trip additionally: amend the parsed chain in place (add an option to the message returned by GetInnerMessage; UpdateOption the interface-id of each level in turn, each on a fresh parse), ToBytes, and compare the forwarded bytes (reference decoder, library FromBytes, GetInnerMessage) with the model carrying the same edit",
+		"edit_after_decode_checks", ck.nEdits.Load(),
+		"edit_after_decode_scope", fmt.Sprintf("every shape, every type pattern; all 704 inner messages for all-RELAY-FORW chains of depth <= %d, the 22 inner messages with no option / every option for the other type patterns and for deeper chains; edits per case: 1 (inner) + depth (one per level), each on a fresh parse", ck.editAllDepth),
 		"cases", total)
 	order := total
 
